@@ -285,6 +285,8 @@ func runC13(c *kit.Ctx) {
 	noBlockingWhileLocked(c, false)
 
 	c.StartRule("R2", "waits for a call's result also watch that call's own context", 2)
+	callerBatchIsNotRewritten(c)
+	queueingWatchesTheBatchContextItself(c)
 	for _, si := range sels {
 		for _, st := range si.sel.States {
 			call, ok := st.Chan.(*ssa.Call)
